@@ -14,10 +14,14 @@ Module M := PJ.Model.Lookup.
 Local Open Scope Z_scope.
 
 Section Tie.
-Context {K : Type} (eqb : K -> K -> bool) (is_empty : K -> bool) (empty_str : K).
+Context (S : strops).
+Notation K := (carrier S).
+Notation eqb := (s_eqb S).
+Notation is_empty := (s_is_empty S).
+Notation empty_str := (s_empty S).
 
 (* ------------------------------------------------------------------ reader side *)
-Definition Rd (g : LookupDecoder) (m : @M.ldec K) : Prop :=
+Definition Rd (g : LookupDecoder S) (m : @M.ldec K) : Prop :=
   LookupDecoder_data g = M.d_data m /\
   LookupDecoder_last_assigned_index g = Z.of_N (M.d_last_assigned m) /\
   LookupDecoder_last_reused_index g = Z.of_N (M.d_last_reused m).
@@ -26,7 +30,7 @@ Lemma lastn_all {A} (l : list A) : lastn (length l) l = l.
 Proof. unfold lastn. rewrite Nat.sub_diag. reflexivity. Qed.
 
 Lemma tie_init_decoder size : (size <= 4096)%N ->
-  exists g, LookupDecoder___init__ (Z.of_N size) = Val g /\ Rd g (M.ldec_init size).
+  exists g, LookupDecoder___init__ S (Z.of_N size) = Val g /\ Rd g (M.ldec_init size).
 Proof.
   intros Hs. unfold LookupDecoder___init__.
   replace (Z.of_N size >? 4096) with false by lia.
@@ -39,7 +43,7 @@ Proof.
 Qed.
 
 Lemma tie_init_decoder_too_large size : (4096 < size)%N ->
-  LookupDecoder___init__ (K := K) (Z.of_N size) = Exn JellyAssertionError.
+  LookupDecoder___init__ S (Z.of_N size) = Exn JellyAssertionError.
 Proof.
   intros Hs. unfold LookupDecoder___init__.
   replace (Z.of_N size >? 4096) with true by lia. reflexivity.
@@ -66,7 +70,7 @@ Proof.
 Qed.
 
 Lemma tie_assign_entry idx v g m : Rd g m ->
-  match LookupDecoder_assign_entry (Z.of_N idx) v g, M.assign_entry idx v m with
+  match LookupDecoder_assign_entry S (Z.of_N idx) v g, M.assign_entry idx v m with
   | (Val _, g'), Some m' => Rd g' m'
   | (Exn _, _), None => True
   | _, _ => False
@@ -93,7 +97,7 @@ Proof.
 Qed.
 
 Lemma tie_at i g m : (1 <= i)%N -> Rd g m ->
-  match LookupDecoder_at (Z.of_N i) g, M.at_ i m with
+  match LookupDecoder_at S (Z.of_N i) g, M.at_ i m with
   | (Val r, g'), Some (m', r') => r = r' /\ Rd g' m'
   | (Exn _, _), None => True
   | _, _ => False
@@ -109,7 +113,7 @@ Proof.
 Qed.
 
 Lemma tie_decode_name_term_index idx g m : Rd g m ->
-  match LookupDecoder_decode_name_term_index (Z.of_N idx) g, M.decode_name_term_index idx m with
+  match LookupDecoder_decode_name_term_index S (Z.of_N idx) g, M.decode_name_term_index idx m with
   | (Val r, g'), Some (m', r') => r = r' /\ Rd g' m'
   | (Exn _, _), None => True
   | _, _ => False
@@ -123,16 +127,16 @@ Proof.
     replace (Z.of_N (M.d_last_reused m) + 1 =? 0) with false by lia.
     replace (Z.of_N (M.d_last_reused m) + 1) with (Z.of_N (M.d_last_reused m + 1)) by lia.
     pose proof (tie_at (M.d_last_reused m + 1) g m ltac:(lia) HR) as Ht.
-    destruct (LookupDecoder_at (Z.of_N (M.d_last_reused m + 1)) g) as [r g'].
+    destruct (LookupDecoder_at S (Z.of_N (M.d_last_reused m + 1)) g) as [r g'].
     destruct (M.at_ (M.d_last_reused m + 1) m) as [[m' v]|]; destruct r as [x|e]; try contradiction; exact Ht.
   - assert (Hz : (Z.of_N idx =? 0) = false) by lia. rewrite Hz. cbv iota. rewrite Hz.
     pose proof (tie_at idx g m ltac:(lia) HR) as Ht.
-    destruct (LookupDecoder_at (Z.of_N idx) g) as [r g'].
+    destruct (LookupDecoder_at S (Z.of_N idx) g) as [r g'].
     destruct (M.at_ idx m) as [[m' v]|]; destruct r as [x|e]; try contradiction; exact Ht.
 Qed.
 
 Lemma tie_decode_datatype_term_index idx g m : Rd g m ->
-  match LookupDecoder_decode_datatype_term_index (Z.of_N idx) g, M.decode_datatype_term_index idx m with
+  match LookupDecoder_decode_datatype_term_index S (Z.of_N idx) g, M.decode_datatype_term_index idx m with
   | (Val r, g'), Some (m', r') => r = Some r' /\ Rd g' m'
   | (Exn _, _), None => True
   | _, _ => False
@@ -144,7 +148,7 @@ Proof.
   - replace (Z.of_N idx =? 0) with true by lia. exact I.
   - replace (Z.of_N idx =? 0) with false by lia.
     pose proof (tie_at idx g m ltac:(lia) HR) as Ht.
-    destruct (LookupDecoder_at (Z.of_N idx) g) as [r g'].
+    destruct (LookupDecoder_at S (Z.of_N idx) g) as [r g'].
     destruct (M.at_ idx m) as [[m' v]|]; destruct r as [x|e]; try contradiction; [|exact I].
     destruct Ht as [-> HR']. split; [reflexivity | exact HR'].
 Qed.
@@ -153,7 +157,7 @@ Qed.
 Definition str_of (r : option K) : K := match r with Some v => v | None => empty_str end.
 
 Lemma tie_decode_prefix_term_index idx g m : Rd g m ->
-  match LookupDecoder_decode_prefix_term_index empty_str (Z.of_N idx) g, M.decode_prefix_term_index idx m with
+  match LookupDecoder_decode_prefix_term_index S (Z.of_N idx) g, M.decode_prefix_term_index idx m with
   | (Val r, g'), Some (m', r') => r = str_of r' /\ Rd g' m'
   | (Exn _, _), None => True
   | _, _ => False
@@ -168,13 +172,13 @@ Proof.
     + replace (Z.of_N (M.d_last_reused m) =? 0) with true by lia. split; [reflexivity | exact HR].
     + replace (Z.of_N (M.d_last_reused m) =? 0) with false by lia.
       pose proof (tie_at (M.d_last_reused m) g m ltac:(lia) HR) as Ht.
-      destruct (LookupDecoder_at (Z.of_N (M.d_last_reused m)) g) as [r g'].
+      destruct (LookupDecoder_at S (Z.of_N (M.d_last_reused m)) g) as [r g'].
       destruct (M.at_ (M.d_last_reused m) m) as [[m' v]|]; destruct r as [x|e]; try contradiction; [|exact I].
       destruct Ht as [-> HR']. split; [reflexivity | exact HR'].
   - assert (Hz : (Z.of_N idx =? 0) = false) by lia. rewrite Hz. cbv iota. rewrite Hz.
     rewrite E0. cbv iota.
     pose proof (tie_at idx g m ltac:(lia) HR) as Ht.
-    destruct (LookupDecoder_at (Z.of_N idx) g) as [r g'].
+    destruct (LookupDecoder_at S (Z.of_N idx) g) as [r g'].
     destruct (M.at_ idx m) as [[m' v]|]; destruct r as [x|e]; try contradiction; [|exact I].
     destruct Ht as [-> HR']. split; [reflexivity | exact HR'].
 Qed.
@@ -188,13 +192,13 @@ Definition mlift {A S} (x : option (S * A)) : option (S * option A) :=
 
 Inductive rop := RAssign (idx : N) (v : K) | RName (idx : N) | RPrefix (idx : N) | RDatatype (idx : N).
 
-Definition gdstep (o : rop) (g : LookupDecoder) : outcome (option K) * LookupDecoder :=
+Definition gdstep (o : rop) (g : LookupDecoder S) : outcome (option K) * LookupDecoder S :=
   match o with
-  | RAssign idx v => let x := LookupDecoder_assign_entry (Z.of_N idx) v g in
+  | RAssign idx v => let x := LookupDecoder_assign_entry S (Z.of_N idx) v g in
                      (match fst x with Val _ => Val None | Exn e => Exn e end, snd x)
-  | RName idx => lift (LookupDecoder_decode_name_term_index (Z.of_N idx) g)
-  | RPrefix idx => lift (LookupDecoder_decode_prefix_term_index empty_str (Z.of_N idx) g)
-  | RDatatype idx => LookupDecoder_decode_datatype_term_index (Z.of_N idx) g
+  | RName idx => lift (LookupDecoder_decode_name_term_index S (Z.of_N idx) g)
+  | RPrefix idx => lift (LookupDecoder_decode_prefix_term_index S (Z.of_N idx) g)
+  | RDatatype idx => LookupDecoder_decode_datatype_term_index S (Z.of_N idx) g
   end.
 
 Definition mdstep (o : rop) (m : @M.ldec K) : option (M.ldec * option K) :=
@@ -205,7 +209,7 @@ Definition mdstep (o : rop) (m : @M.ldec K) : option (M.ldec * option K) :=
   | RDatatype idx => mlift (M.decode_datatype_term_index idx m)
   end.
 
-Fixpoint gdrun (ops : list rop) (g : LookupDecoder) : list (option K) * bool :=
+Fixpoint gdrun (ops : list rop) (g : LookupDecoder S) : list (option K) * bool :=
   match ops with
   | [] => ([], false)
   | o :: os =>
@@ -234,19 +238,19 @@ Lemma tie_gdstep o g m : Rd g m ->
 Proof.
   intros HR. destruct o as [idx v|idx|idx|idx]; cbn [gdstep mdstep].
   - pose proof (tie_assign_entry idx v g m HR) as H.
-    destruct (LookupDecoder_assign_entry (Z.of_N idx) v g) as [[u|e] g'];
+    destruct (LookupDecoder_assign_entry S (Z.of_N idx) v g) as [[u|e] g'];
       destruct (M.assign_entry idx v m) as [m'|]; cbn; try exact H.
     split; [reflexivity | exact H].
   - pose proof (tie_decode_name_term_index idx g m HR) as H. unfold lift, mlift.
-    destruct (LookupDecoder_decode_name_term_index (Z.of_N idx) g) as [[v|e] g'];
+    destruct (LookupDecoder_decode_name_term_index S (Z.of_N idx) g) as [[v|e] g'];
       destruct (M.decode_name_term_index idx m) as [[m' c]|]; cbn; try exact H.
     destruct H as [-> H]. split; [reflexivity | exact H].
   - pose proof (tie_decode_prefix_term_index idx g m HR) as H. unfold lift.
-    destruct (LookupDecoder_decode_prefix_term_index empty_str (Z.of_N idx) g) as [[v|e] g'];
+    destruct (LookupDecoder_decode_prefix_term_index S (Z.of_N idx) g) as [[v|e] g'];
       destruct (M.decode_prefix_term_index idx m) as [[m' c]|]; cbn; try exact H.
     destruct H as [-> H]. split; [reflexivity | exact H].
   - pose proof (tie_decode_datatype_term_index idx g m HR) as H. unfold mlift.
-    destruct (LookupDecoder_decode_datatype_term_index (Z.of_N idx) g) as [[v|e] g'];
+    destruct (LookupDecoder_decode_datatype_term_index S (Z.of_N idx) g) as [[v|e] g'];
       destruct (M.decode_datatype_term_index idx m) as [[m' c]|]; cbn; try exact H.
 Qed.
 
@@ -263,7 +267,7 @@ Qed.
 (* from construction on: every history of calls on a fresh LookupDecoder of the source returns what the
    model returns, and raises exactly when the model has no result *)
 Theorem source_reader_is_model size ops : (size <= 4096)%N ->
-  exists g0, LookupDecoder___init__ (Z.of_N size) = Val g0 /\
+  exists g0, LookupDecoder___init__ S (Z.of_N size) = Val g0 /\
              gdrun ops g0 = mdrun ops (M.ldec_init size).
 Proof.
   intros Hs. destruct (tie_init_decoder size Hs) as (g0 & Hi & HR).
